@@ -11,7 +11,7 @@
 (*           the reader made of the harness-emitted input text, the last   *)
 (*           one = what came back; each [fmt, rows]                        *)
 (*   texts   every PDB text the code wrote: [src, model, lines], written   *)
-(*           from frames[src] (restricted to `model` if model > 0); lines  *)
+(*           from frames[src] (restricted to `model` unless model = -1); lines  *)
 (*           are sequences of 1-character strings and are sliced HERE by   *)
 (*           the layout table                                              *)
 (*   err     exception type name ("" = none), errstep = where              *)
@@ -74,7 +74,8 @@ FieldIdentity(c) ==
 
 SrcRows(c, t) ==
   LET R == c.frames[t.src].rows IN
-  IF t.model = 0 THEN R ELSE SelectSeq(R, LAMBDA r : r.model = t.model)
+  \* t.model = -1: the text is the whole frame (0 is a model number a file may use)
+  IF t.model = -1 THEN R ELSE SelectSeq(R, LAMBDA r : r.model = t.model)
 
 \* rank of line k among the ATOM lines, for every line (prefix counts)
 RECURSIVE Ranks(_, _, _)
